@@ -37,6 +37,12 @@ fn first_node_idx(list: &[Item]) -> usize {
 }
 
 pub fn make_include(cx: &mut Cx, list: &mut Vec<Item>, first: usize, dir: &str, depth: u32, st: &mut SplitState, in_ifdata: bool) {
+    cx.tape.begin_group();
+    make_include_inner(cx, list, first, dir, depth, st, in_ifdata);
+    cx.tape.end_group();
+}
+
+fn make_include_inner(cx: &mut Cx, list: &mut Vec<Item>, first: usize, dir: &str, depth: u32, st: &mut SplitState, in_ifdata: bool) {
     let n = list.len() - first;
     // range [i, j) of the node run; empty ranges give empty include files
     let i = first + cx.tape.draw(n as u64 + 1) as usize;
@@ -100,6 +106,13 @@ pub fn make_include(cx: &mut Cx, list: &mut Vec<Item>, first: usize, dir: &str, 
 }
 
 pub fn split_list(cx: &mut Cx, list: &mut Vec<Item>, first: usize, dir: &str, depth: u32, st: &mut SplitState, chance16: u64, in_ifdata: bool) {
+    cx.tape.begin_group();
+    split_list_inner(cx, list, first, dir, depth, st, chance16, in_ifdata);
+    cx.tape.end_group();
+}
+
+#[allow(clippy::too_many_arguments)]
+fn split_list_inner(cx: &mut Cx, list: &mut Vec<Item>, first: usize, dir: &str, depth: u32, st: &mut SplitState, chance16: u64, in_ifdata: bool) {
     if st.made < st.max_files && cx.tape.chance(chance16, 16) {
         make_include(cx, list, first, dir, depth, st, in_ifdata);
         // two includes back to back, sometimes
